@@ -129,3 +129,81 @@ probes! { 0; c04_put_k00 = 0, c04_put_k01 = 1 }
 probes! { 1; c04_del_k00 = 0, c04_del_k01 = 1 }
 probes! { 2; c04_merge_k02 = 2, c04_merge_k04 = 4, c04_merge_k06 = 6, c04_merge_k07 = 7, c04_merge_k08 = 8, c04_merge_k09 = 9, c04_merge_k10 = 10,
              c04_merge_k11 = 11, c04_merge_k12 = 12, c04_merge_k13 = 13, c04_merge_k14 = 14, c04_merge_k15 = 15, c04_merge_k16 = 16 }
+
+
+// ------------------------------------------------------------------------------------------------
+// The dual product: ONE reader-side `get` is preempted at one of ITS file-system calls (the open
+// of the data file, the mmap) and a complete writer-side operation runs there.  The real
+// `Reader::get` holds the DashMap read guard of its key across the file access; a merge (or a
+// put / delete of the same key) that has to rewrite that index entry blocks on the shard lock until
+// the get is done, so those interleavings cannot happen - the model marks them infeasible and the
+// run is discarded.  Every interleaving that remains must return the value before or after the
+// operation.  (A `get` that lets go of the guard before it touches the file loses exactly this
+// protection: the merge re-points the entry, unlinks the file, and the open fails.)
+static mut RPROBE_WRITER: Option<Writer> = None;
+static mut RPROBE_OP: u8 = 0;
+static mut RPROBE_RAN: bool = false;
+static mut RPROBE_V: u8 = 0;
+fn rprobe() {
+    unsafe {
+        RPROBE_RAN = true;
+        if let Some(w) = RPROBE_WRITER.as_mut() {
+            match RPROBE_OP {
+                0 => must(w.put(kb(K[1]), kb(RPROBE_V))),
+                1 => {
+                    let _ = must(w.delete(kb(K[0])));
+                }
+                3 => must(w.put(kb(K[0]), kb(RPROBE_V))),
+                _ => must(w.merge()),
+            }
+        }
+    }
+}
+
+/// Shape: two values on disk in file 0; the reader has NOT touched file 0 yet (no cached handle, no
+/// mapping: it has to open the file by name).  `get(a)` runs; before its file-system call number
+/// `at` (0 = open, 1 = mmap) the writer-side operation `op` runs to completion: 0 = put b,
+/// 1 = del a, 2 = merge of everything, 3 = put a.
+pub(crate) fn rprobe_shape(op: u8, at: usize) {
+    mfs::__preexisting(dslot(0));
+    let (va, vb): (u8, u8) = (kani::any(), kani::any());
+    lay_data(dslot(0), 0, K[0], Some(va));
+    lay_data(dslot(0), 0, K[1], Some(vb));
+    let Store { ctx, w, r } = open_store(mk_conf_thr(u64::MAX, 2, false, T_ALL));
+    let v: u8 = kani::any();
+    unsafe {
+        RPROBE_WRITER = Some(w);
+        RPROBE_OP = op;
+        RPROBE_V = v;
+    }
+    let after: Option<u8> = match op {
+        1 => None,
+        3 => Some(v),
+        _ => Some(va),
+    };
+    mfs::__fs().probe_at = mfs::__fs().steps + at;
+    mfs::__fs().probe = Some(rprobe);
+    unsafe { dashmap::TRACK_READ = true };
+    let g = r.get(kb(K[0]));
+    unsafe { dashmap::TRACK_READ = false };
+    mfs::__fs().probe = None;
+    let feasible = unsafe { !dashmap::INFEASIBLE };
+    kani::cover!(unsafe { RPROBE_RAN }, "the writer-side operation ran inside the get");
+    kani::cover!(unsafe { RPROBE_RAN } && feasible, "an interleaving the shard lock allows");
+    if feasible {
+        match &g {
+            Ok(x) => {
+                let got = v1(x);
+                assert!(got == Some(va) || got == after, "[C04] a get preempted by a writer-side operation returned a value that is neither the one before nor the one after it");
+            }
+            Err(_) => assert!(false, "[C04] a get preempted by a writer-side operation failed"),
+        }
+    }
+    std::mem::forget(g);
+    std::mem::forget((ctx, r));
+}
+macro_rules! rprobes { ($op:expr; $($name:ident = $k:expr),* $(,)?) => { $( s_harness! { fn $name() { rprobe_shape($op, $k) } } )* } }
+rprobes! { 0; c04_rget_putb_k00 = 0, c04_rget_putb_k01 = 1 }
+rprobes! { 1; c04_rget_dela_k00 = 0 }
+rprobes! { 2; c04_rget_merge_k00 = 0, c04_rget_merge_k01 = 1 }
+rprobes! { 3; c04_rget_puta_k00 = 0 }
